@@ -175,6 +175,8 @@ pub enum Step {
     /// an ask joined with a branch that yields once and then panics (the ask future is destroyed by unwinding)
     JoinAskPanic { slot: u8, msg: MsgSpec },
     Stop(u8),
+    /// stop() wrapped in a caller-side timeout: the stop future is dropped if it has not completed after `ms`
+    StopCancel { slot: u8, ms: u32 },
     Kill(u8),
     CloneH { from: u8, to: u8 },
     DropH(u8),
